@@ -404,6 +404,8 @@ inductive Ev where
   | reset (id : Nat)
   | release
   | spin (i k : Nat)
+  | wcancel (i k : Nat)
+  | wdstream (i k : Nat)
   deriving Repr
 
 /-- what the program sees -/
@@ -706,6 +708,44 @@ def evSpin (w : World) (i k : Nat) : World × Out :=
     if s.kind != .pipe || s.fut.isSome || s.strm.isSome || s.eof || s.avail != 0 || 200000 < k then (w, .bad)
     else (spinN i k w, .ok)
 
+/-- the peer writes `k` bytes and the future is dropped BEFORE the driver is polled again.
+    io_uring: the kernel has already completed the receive into a selected buffer; the completion
+    is reaped after the user's key is gone, `Entry::notify` → `set_result` still adopts the buffer and
+    the op, dropped by the driver, gives it back: same final state as "completion processed, then the
+    future dropped". Polling driver: nothing reads before the op is removed, the data stays. -/
+def evWCancel (w : World) (i k : Nat) : World × Out :=
+  match validSrc w i with
+  | none => (w, .bad)
+  | some s =>
+    if s.fut.isNone then (w, .bad)
+    else
+      match w.pool.kind with
+      | .ring =>
+        match evWrite w i k with
+        | (w1, .ok) => ((evCancel w1 i).1, .ok)
+        | _ => (w, .bad)
+      | .fb =>
+        if k = 0 || 1024 < k || s.kind == .file || s.eof then (w, .bad)
+        else ((evWrite (evCancel w i).1 i k).1, .ok)
+
+/-- the same race for a multishot stream: completions posted by the kernel are pushed into the op as
+    guards when the driver reaps them after the stream was dropped; the op, dropped by the driver after
+    the cancel completed, resets every guard -/
+def evWDstream (w : World) (i k : Nat) : World × Out :=
+  match validSrc w i with
+  | none => (w, .bad)
+  | some s =>
+    if s.strm.isNone then (w, .bad)
+    else
+      match w.pool.kind with
+      | .ring =>
+        match evWrite w i k with
+        | (w1, .ok) => ((evDstream w1 i).1, .ok)
+        | _ => (w, .bad)
+      | .fb =>
+        if k = 0 || 1024 < k || s.kind == .file || s.eof then (w, .bad)
+        else ((evWrite (evDstream w i).1 i k).1, .ok)
+
 def step (w : World) (e : Ev) : World × Out :=
   if w.dead then (w, .dead)
   else
@@ -726,6 +766,8 @@ def step (w : World) (e : Ev) : World × Out :=
     | .reset id => evReset w id
     | .release => evRelease w
     | .spin i k => evSpin w i k
+    | .wcancel i k => evWCancel w i k
+    | .wdstream i k => evWDstream w i k
 
 def run (w : World) : List Ev → World
   | [] => w
